@@ -21,6 +21,7 @@ const (
 	clsRepo = iota
 	clsForeign
 	clsData
+	clsMap
 	nClasses
 )
 
@@ -28,7 +29,9 @@ const repoModPath = "github.com/la5nta/wl2k-go"
 
 func heapClass(key string) int {
 	switch {
-	case strings.HasPrefix(key, "map:"), strings.HasPrefix(key, "[]"), strings.HasPrefix(key, "*"):
+	case strings.HasPrefix(key, "map:"):
+		return clsMap
+	case strings.HasPrefix(key, "["), strings.HasPrefix(key, "*"):
 		return clsData
 	case strings.Contains(key, repoModPath):
 		return clsRepo
@@ -55,7 +58,7 @@ func (ex *Exec) newState() *State {
 		pc:     ex.tb.True,
 		locals: map[*ssa.Alloc]*Value{},
 		heap:   map[string]*Term{},
-		dflt:   [nClasses][]lazyDflt{{{cond: ex.tb.True, epoch: 0}}, {{cond: ex.tb.True, epoch: 0}}, {{cond: ex.tb.True, epoch: 0}}},
+		dflt:   [nClasses][]lazyDflt{{{cond: ex.tb.True, epoch: 0}}, {{cond: ex.tb.True, epoch: 0}}, {{cond: ex.tb.True, epoch: 0}}, {{cond: ex.tb.True, epoch: 0}}},
 		ghost:  map[string]*Value{},
 		armed:  map[*ssa.Defer]*Term{},
 		dargs:  map[*ssa.Defer][]*Value{},
